@@ -15,8 +15,11 @@ def parse(toks):
     def stmt():
         t = toks[pos[0]]
         pos[0] += 1
-        if t in ("s", "n", "r"):
+        if t in ("s", "n", "r", "d"):
             return {"k": t}
+        if t == "m":
+            # one statement `var a = <id>, b[<id+1>];`: an assignment followed by a declaration with a dimension (both observable)
+            return {"k": "blk", "ss": [{"k": "s", "mrole": 1}, {"k": "s", "mrole": 2}], "braced": True, "multi": True}
         if t == "if":
             return {"k": "if", "t": arm()}
         if t == "ife":
@@ -33,7 +36,9 @@ def parse(toks):
         if t == "{":
             return {"k": "blk", "ss": lst(), "braced": True}
         if t == "bare":
-            return {"k": "blk", "ss": [stmt()], "braced": False}
+            inner = stmt()
+            # a declaration is not written as the unbraced body of a branch or loop
+            return {"k": "blk", "ss": [inner], "braced": bool(inner.get("multi")) or inner["k"] == "d"}
         raise ValueError(t)
 
     def lst():
@@ -79,7 +84,15 @@ class Builder:
         self.nodes.append(None)
         k = st["k"]
         node = {"k": k, "id": 0, "kids": [], "t": 0, "e": 0, "depth": depth}
-        if k in ("s", "n", "r"):
+        if k == "blk" and st.get("multi"):
+            base = self.new_id()
+            st["ss"][0].update(id=base, w="m%da" % base, r="")
+            st["ss"][1].update(id=base + 1, w="", r="")
+            st["id"] = base
+        if k == "d":
+            self.ndecl = getattr(self, "ndecl", 0) + 1
+            st["dn"] = self.ndecl
+        elif k in ("s", "n", "r"):
             node["id"] = st.get("id") or self.new_id()
             st["id"] = node["id"]
             if k == "s" and "w" not in st:
@@ -101,6 +114,9 @@ class Builder:
         return idx + 1
 
 
+TEMPLATE_MODE = [False]
+
+
 def render_stmt(st, ind):
     pad = "  " * ind
     k = st["k"]
@@ -109,6 +125,10 @@ def render_stmt(st, ind):
         return "%s%s = %s;\n" % (pad, st["w"], rhs)
     if k == "n":
         return "%sassert(p0 != %d);\n" % (pad, st["id"])        # a statement that assigns no local
+    if k == "d":
+        return "%s%s d%d;\n" % (pad, "signal" if TEMPLATE_MODE[0] else "var", st["dn"])
+    if k == "blk" and st.get("multi"):
+        return "%svar m%da = %d, m%db[%d];\n" % (pad, st["id"], st["id"], st["id"], st["id"] + 1)
     if k == "r":
         return "%sreturn x + %d;\n" % (pad, st["id"])
     if k == "blk":
@@ -142,20 +162,25 @@ def render_arm(arm, ind):
 
 def build(toks, k):
     """-> (source text, flat tree). Two prologues: x and y declared first (the body then never starts the definition), or x and y
-    as parameters, so that the first statement of the body - possibly a loop or a branch - is the first statement of the definition."""
+    as parameters, so that the first statement of the body - possibly a loop or a branch - is the first statement of the definition.
+    A body that declares signals (`d`) and has no `return` is rendered as a template."""
     body = parse(toks)
+    template = ("d" in toks) and ("r" not in toks)
     as_params = bool(body) and (body[0]["k"] in ("wh", "if", "ife", "blk") or k % 4 == 0)
     pro = [] if as_params else [{"k": "s", "id": 4, "w": "x", "r": ""}, {"k": "s", "id": 7, "w": "y", "r": ""}]
-    root = {"k": "blk", "braced": True, "ss": pro + body + [{"k": "r", "id": 9}]}
+    root = {"k": "blk", "braced": True, "ss": pro + body + [{"k": "n" if template else "r", "id": 9}]}
     b = Builder(k)
     b.flat(root, 0)
     # render after numbering; a rewritten dangling-else arm changes `braced` only (same tree)
+    TEMPLATE_MODE[0] = template
+    kw = "template" if template else "function"
     if as_params:
-        text = "function f(p0, x, y) {\n"
+        text = "%s f(p0, x, y) {\n" % kw
     else:
-        text = "function f(p0) {\n  var x = 4;\n  var y = 7;\n"
+        text = "%s f(p0) {\n  var x = 4;\n  var y = 7;\n" % kw
     text += "".join(render_stmt(s, 1) for s in body)
-    text += "  return x + y + 9;\n}\n"
+    text += "  assert(p0 != 9);\n}\n" if template else "  return x + y + 9;\n}\n"
+    TEMPLATE_MODE[0] = False
     return text, b.nodes
 
 
@@ -225,6 +250,8 @@ def convert(cfg):
                     declared.add((key(n), n["v"]))
                 for d in s["dims"]:
                     reads_of(d, st["reads"])
+                if s["dims"]:
+                    st["tag"] = num_of(s["dims"][0])
             elif s["k"] == "if":
                 st.update(k="if", tag=num_of(s["cond"]), t=s["t"] + 1, f=s["f"] + 1 if s["f"] >= 0 else 0)
                 reads_of(s["cond"], st["reads"])
@@ -275,6 +302,18 @@ def make_records(cases, wd, tierk=0):
         else:
             recs.append({"kind": "ok", "tree": tree, "g": convert(doc["pre"]), "ssa": convert(doc["ssa"])})
     return recs, srcs, docs
+
+
+# hand-written definitions in which one identifier is used for things of different kinds in different scopes (the renaming pass
+# distinguishes them by a suffix; signals and components must stay unversioned whatever locals share their identifier)
+KIND_CLASHES = [
+    "template f(p0) {\n  signal input a;\n  signal output o;\n  var x = 4;\n  if (p0 == 1) {\n    var bits = 3;\n    x = x + bits;\n  }\n  component bits = Sub();\n  bits.in <== a + x;\n  o <== bits.out;\n}\n",
+    "template f(p0) {\n  signal input a;\n  signal output o;\n  var acc = 0;\n  for (var i = 0; i < 2; i++) {\n    var t = i;\n    acc = acc + t;\n  }\n  signal t;\n  t <== a * acc;\n  o <== t;\n}\n",
+    "template f(p0, w) {\n  signal input a;\n  signal output o;\n  var v = w;\n  {\n    signal w;\n    w <== a * v;\n    o <== w;\n  }\n}\n",
+    "template f(p0) {\n  signal input a;\n  signal output o;\n  var s = 1;\n  if (p0 == 2) {\n    s = s + 1;\n  }\n  {\n    component s[2];\n    for (var j = 0; j < 2; j++) {\n      s[j] = Sub();\n      s[j].in <== a;\n    }\n    o <== s[0].out + s[1].out;\n  }\n}\n",
+    "template f(p0) {\n  signal input a;\n  signal output o;\n  {\n    signal q;\n    q <== a;\n  }\n  var q = 2;\n  q = q + p0;\n  while (q == 3) {\n    q = q + 1;\n  }\n  o <== a * q;\n}\n",
+    "function f(p0, q) {\n  var r = q;\n  {\n    var q = r + 1;\n    r = q;\n  }\n  for (var q = 0; q < 2; q++) {\n    r = r + q;\n  }\n  return r + q;\n}\n",
+]
 
 
 C12_WHY = ("entry block", "a block is unreachable", "successor and predecessor", "branch statement not last", "branch target", "too many successors",
@@ -330,13 +369,36 @@ def run_check(prop, tier):
     gen = run_tlc("CfgBuild", c, name, workers=8 if tier == "quick" else 14, timeout=3000)
     cases = list(read_ndjson(gen.cases_path))
     total = len(cases)
-    cap = 6000 if tier == "quick" else 60000
+    cap = 9000 if tier == "quick" else 80000
     if len(cases) > cap:
-        # keep every small body, sample the largest size class
-        small = [x for x in cases if len(x["toks"]) <= 9]
-        big = [x for x in cases if len(x["toks"]) > 9]
-        cases = small + rnd.sample(big, max(0, cap - len(small)))
+        # keep every small body (if they fit into half of the budget, else a sample of them), sample the larger ones
+        small = [x for x in cases if len(x["toks"]) <= 7]
+        big = [x for x in cases if len(x["toks"]) > 7]
+        if len(small) > cap // 2:
+            small = rnd.sample(small, cap // 2)
+        cases = small + rnd.sample(big, min(len(big), cap - len(small)))
     recs, srcs, docs = make_records(cases, wd, tierk=vlib.seed())
+    # static-only records: hand-written definitions (no generated tree)
+    xin, xout = os.path.join(wd, "kc.in"), os.path.join(wd, "kc.out")
+    write_ndjson(xin, [{"id": i, "src": t} for i, t in enumerate(KIND_CLASHES)])
+    vh(["irdump", xin, xout], timeout=600)
+    for t, doc in zip(KIND_CLASHES, read_ndjson(xout)):
+        if "panic" in doc:
+            v.violation("%s:panic %s" % (name, doc["panic"]["site"]), {"source": t, "panic": doc["panic"]})
+            continue
+        if not doc.get("parse") or "pre" not in doc:
+            raise vlib.ToolError("a hand-written definition does not parse / lift: %s" % t)
+        if "ssa" not in doc:
+            # these definitions convert on the unchanged tree; a spurious `used before it is defined` is what a versioned
+            # signal or component looks like from outside
+            if prop == "C14":
+                v.violation("c14:SSA conversion fails for a definition in which a signal or component shares its identifier with a local",
+                            {"source": t, "error": (doc.get("ssa_error") or {}).get("msg"), "why": "ssa-conversion-fails"})
+            continue
+        recs.append({"kind": "static", "tree": [{"k": "blk", "id": 0, "kids": [], "t": 0, "e": 0, "depth": 0}], "g": convert(doc["pre"]), "ssa": convert(doc["ssa"])})
+        srcs.append(t)
+        docs.append(doc)
+        cases.append({"toks": ["hand-written"]})
     for i, d in enumerate(docs):
         if "panic" in d:
             v.violation("%s:panic %s" % (name, d["panic"]["site"]), {"source": srcs[i], "panic": d["panic"]})
@@ -369,7 +431,7 @@ def run_check(prop, tier):
                    "if / if-else / while / for with braced and bare arms, nested blocks; reads/writes of two locals and the conditions' "
                    "operands rotated over all patterns; each rendered, parsed and lifted by the real code, the exported pre-SSA and SSA "
                    "graphs judged by CfgTrace.tla with every decision sequence explored (<= 2 iterations per condition); non-trivial = "
-                   "bodies with at least one branch or loop" % (steps, total, len(cases), "" if total == len(cases) else ", largest size class sampled"),
+                   "bodies with at least one branch or loop" % (steps, total, len(cases), "" if total == len(cases) else ", bodies of more than 7 tokens sampled"),
            "samples": [{"source": srcs[i]} for i in (0, len(srcs) // 2, len(srcs) - 1)],
            "clauses_of_this_property": clauses,
            "impl_model": {"module": "Lifting.tla (graph), CfgTrace!IDF (phi placement)", "trees_on_which_the_model_satisfies_the_reference_clauses": len(recs) - len(l1),
